@@ -45,7 +45,7 @@ CHECKS = {
     "C16": ("other", "contracts (operand order, boundaries kept, any/all/max) + bounded numpy stand-in",
             "Proved: unary / scalar ufuncs keep boundaries and apply U in operand order, operands untouched; the binary merge _apply_binary_func for two arrays with unrelated boundaries (every position gets U(first, other) in operand order; argsort / searchsorted contracts, partition-point induction, proved callee contracts); any/all/max equal the dense ones; sum of integer arrays equals the sum of the decoded array (two inductions, products length * value handled by the solver's nonlinear arithmetic); concatenate; mean = the callee's sum over the same runs divided by the decoded length, histogram = numpy's histogram of the run values weighted by the run lengths (dispatch obligations). Float sums and numpy's histogram itself are bounded / assumed.", "0, 20, 11/C16"),
     "C17": ("other", "dispatch contracts (operand order, lock-step row selection) + bounded numpy stand-in",
-            "Proved: ufunc operand order for scalar / column on either side in both classes; row selection indexes boundaries and values with the same selector; reduction / structure plumbing (which ragged reduction is applied to which operand); RunLength2dArray.join_runs (lock-step filtering, real ragged machinery); with the ragged operands as contract-level stand-ins (SpecRagged, audited): RunLengthRaggedArray.ravel, the integer-column selection rr[:, j] (two inductions), RunLengthRaggedArray.remove_empty_intervals (row by row the 1-D helper's contract; lock-step of boundaries and values; six inductions), the 2-D _step_subset for every non-zero step of symbolic size (against that contract, factored floor division), the row sums of integer arrays (sum(axis=-1) equals the sum of each decoded row), argmax (the first position of the row maximum), mean (row sums divided by the decoded row lengths; column means = sum(axis=0) / col_counts() over the callee contracts), col_counts (value at column k = number of rows longer than k; np.unique with counts, three inductions), the window extraction behind rla[starts:stops]. Constructors, column ranges, column sums, concatenate are bounded.", "0, 20, 11/C17"),
+            "Proved: ufunc operand order for scalar / column on either side in both classes; row selection indexes boundaries and values with the same selector; reduction / structure plumbing (which ragged reduction is applied to which operand); RunLength2dArray.join_runs (lock-step filtering, real ragged machinery); with the ragged operands as contract-level stand-ins (SpecRagged, audited): RunLengthRaggedArray.ravel, the integer-column selection rr[:, j] (two inductions), RunLengthRaggedArray.remove_empty_intervals (row by row the 1-D helper's contract; lock-step of boundaries and values; six inductions), the 2-D _step_subset for every non-zero step of symbolic size (against that contract, factored floor division), the row sums of integer arrays (sum(axis=-1) equals the sum of each decoded row), argmax (the first position of the row maximum), mean (row sums divided by the decoded row lengths; column means = sum(axis=0) / col_counts() over the callee contracts), col_counts (value at column k = number of rows longer than k; np.unique with counts, three inductions), the window extraction behind rla[starts:stops], np.concatenate of 2 / 3 ragged run-length arrays (boundaries and values joined along the rows in the same operand order; with the proved contract of the ragged row concatenation every result row is the same row of the same operand, well-formed). Constructors, column ranges, column sums are bounded.", "0, 20, 11/C17"),
     "C18": ("other", "contracts on field-wise operations with abstract fields (k = 1..3 fields unrolled, all lengths and selectors symbolic) + bounded stand-in",
             "Proved: equal-length check, __getitem__ for int / slice / index array / mask, concatenate of 2 and 3 objects, ==, astype by name, iteration, VarLenArray concatenate for 2 and 3 operands with all sizes symbolic. The number of fields / operands is concrete (unrolled), hence not claimed as proof.", "0, 20, 11/C18"),
     "C19": ("other", "re-generation of every geometry / indexing / reduction obligation under int32 (paired-word view model) + bounded differential run",
